@@ -28,6 +28,7 @@ import (
 	"com.tuntun.rangers/node/src/common"
 	"com.tuntun.rangers/node/src/middleware/db"
 	"com.tuntun.rangers/node/src/middleware/types"
+	"com.tuntun.rangers/node/src/service"
 	"verif/harness/hx"
 )
 
@@ -45,6 +46,7 @@ type histStep struct {
 type childJob struct {
 	Worlds map[string]worldDump `json:"worlds"`
 	Steps  []histStep           `json:"steps"`
+	Faults []string             `json:"faults,omitempty"` // node-local stores put out of order before the steps
 	Out    string               `json:"out"`
 }
 
@@ -85,6 +87,16 @@ func childMain(jobFile string) {
 	for name, d := range job.Worlds {
 		worlds[name] = loadWorld(d)
 	}
+	for _, f := range job.Faults {
+		switch f {
+		case "service-stores-closed": // key cache of the miner manager, stores of the transaction pool
+			service.Close()
+		case "shared-leveldb-closed": // the LevelDB instance behind every db.NewDatabase(prefix) handle
+			if d, err := db.NewDatabase("c01fault"); err == nil {
+				d.Close()
+			}
+		}
+	}
 	var outs []blockOutcome
 	for _, st := range job.Steps {
 		o, pan := runBlockAt(worlds[st.World], st.Block, st.Height)
@@ -98,7 +110,7 @@ func childMain(jobFile string) {
 }
 
 // runChild executes steps in a fresh process and returns the outcome of every step.
-func runChild(id int, worlds map[string]worldDump, steps []histStep) ([]blockOutcome, error) {
+func runChild(id int, worlds map[string]worldDump, steps []histStep, faults ...string) ([]blockOutcome, error) {
 	exe, err := os.Executable()
 	if err != nil {
 		return nil, err
@@ -111,7 +123,7 @@ func runChild(id int, worlds map[string]worldDump, steps []histStep) ([]blockOut
 		return nil, err
 	}
 	defer os.RemoveAll(dir)
-	job := childJob{Worlds: worlds, Steps: steps, Out: filepath.Join(dir, "out.json")}
+	job := childJob{Worlds: worlds, Steps: steps, Faults: faults, Out: filepath.Join(dir, "out.json")}
 	jb, _ := json.Marshal(job)
 	jf := filepath.Join(dir, "job.json")
 	if err := os.WriteFile(jf, jb, 0644); err != nil {
@@ -215,15 +227,22 @@ func historySearch(a hx.Args, rng *hx.Rng, res *hx.Result, n int) {
 	worlds := map[string]*world{"main": blockWorld, "alt": altWorld}
 
 	type item struct {
-		B      blockCase
-		ref    []blockOutcome
-		refErr error
+		B        blockCase
+		ref      []blockOutcome
+		refErr   error
+		fault    []blockOutcome
+		faultErr error
 	}
 	items := make([]*item, n)
 	for i := range items {
 		b := genBlock(rng)
 		if i%3 == 0 { // B itself reward relevant
 			b.Txs = append(b.Txs, genSibling(rng).Txs[0])
+		}
+		if i%3 == 1 { // a miner apply: the miner manager also writes its node-local key cache
+			m := types.Miner{Id: idOf(byte(0x90 + i%16)), PublicKey: []byte{7, byte(i)}, VrfPublicKey: []byte{6}, Type: common.MinerTypeValidator, Stake: common.ValidatorStake * 2}
+			md, _ := json.Marshal(m)
+			b.Txs = append(b.Txs, txDesc{Type: types.TransactionTypeMinerApply, Source: addrHex(addr(20 + i%5)), Data: string(md), Nonce: 77})
 		}
 		items[i] = &item{B: b}
 	}
@@ -237,6 +256,7 @@ func historySearch(a hx.Args, rng *hx.Rng, res *hx.Result, n int) {
 			sem <- struct{}{}
 			defer func() { <-sem }()
 			it.ref, it.refErr = runChild(i, dumps, []histStep{{World: "main", Height: blockHeight, Block: it.B}})
+			it.fault, it.faultErr = runChild(1000+i, dumps, []histStep{{World: "main", Height: blockHeight, Block: it.B}}, "service-stores-closed", "shared-leveldb-closed")
 		}(i, it)
 	}
 	wg.Wait()
@@ -251,6 +271,20 @@ func historySearch(a hx.Args, rng *hx.Rng, res *hx.Result, n int) {
 			continue
 		}
 		ref := it.ref[0]
+		// the same block on a replica whose node-local auxiliary stores are out of order
+		if it.faultErr != nil || len(it.fault) != 1 {
+			res.Violate("C01/local-fault:replica-crashed", fmt.Sprintf("a replica whose node-local stores (miner key cache, pool stores, shared LevelDB) are closed could not execute the block: %v", it.faultErr), it.B)
+		} else {
+			class := "local-fault:same-outcome"
+			if d := diffFields(ref, it.fault[0]); d != "" {
+				class = "local-fault-DEPENDENT"
+				res.Violate("C01/local-fault:stores-closed",
+					fmt.Sprintf("the same block on the same parent state gives a different %s on a replica whose node-local stores (miner key cache, transaction pool stores, shared LevelDB instance) are closed; healthy: %s  VS  faulty: %s",
+						d, ref.digest(), it.fault[0].digest()), it.B)
+			}
+			bj, _ := json.Marshal(it.B)
+			res.Count(class, "fault|"+string(bj), true)
+		}
 		s1, s2 := genSibling(rng), genSibling(rng)
 		other := genBlock(rng)
 		hists := map[string][]histStep{
